@@ -368,7 +368,7 @@ pub fn next_op(rng: &mut Rng, p: &Profile, cfg: &Cfg, v: &View) -> Op {
         W_DEALLOC => Op::Dealloc { k: rng.below(64) as usize },
         W_REWRITE => Op::Rewrite { h: rng.below(64) as usize },
         W_DISCARD => Op::DiscardFreelist,
-        W_SETMIN => Op::SetMinSeg(*rng.pick(&[0u32, 1, 4, 8, 12, 20, 33, 48, 100])),
+        W_SETMIN => Op::SetMinSeg(*rng.pick(&[0u32, 1, 4, 8, 12, 20, 33, 48, 100, u32::MAX])),
         W_INCDISC => Op::IncDiscarded(rng.range(0, 300) as u32),
         W_REWIND => Op::Rewind(gen_pos(rng, v)),
         W_CLEAR => Op::Clear,
